@@ -392,7 +392,12 @@ def _virtual_calls(fn: ast.FunctionDef, call: ast.Call) -> List[ast.Call]:
     the same program as two explicit calls."""
     import copy as _c
     names = {a.id for a in list(call.args) + [k.value for k in call.keywords] if isinstance(a, ast.Name)}
-    if not names:
+    # callbacks written in place (lambda b, x: self.solver.solve(b, trans=mode)): their free locals are resolved as well
+    lam_args = [a for a in list(call.args) + [k.value for k in call.keywords] if isinstance(a, ast.Lambda)]
+    lam_free = set()
+    for lam in lam_args:
+        lam_free |= {x.id for x in ast.walk(lam.body) if isinstance(x, ast.Name)} - {a.arg for a in lam.args.args}
+    if not names and not lam_free:
         return [call]
     closures: Dict[str, ast.Lambda] = {}
     for st in ast.walk(fn):
@@ -411,7 +416,7 @@ def _virtual_calls(fn: ast.FunctionDef, call: ast.Call) -> List[ast.Call]:
     free = set()
     for lam in closures.values():
         free |= {x.id for x in ast.walk(lam.body) if isinstance(x, ast.Name)} - {a.arg for a in lam.args.args}
-    wanted = (names | free) - set(closures)
+    wanted = (names | free | lam_free) - set(closures)
     multi = {nm for nm in wanted if len(defs.get(nm, [])) >= 2}
     cases: List[Dict[str, ast.AST]] = [{}]
     if multi:
@@ -430,9 +435,24 @@ def _virtual_calls(fn: ast.FunctionDef, call: ast.Call) -> List[ast.Call]:
                 if b is None:
                     return [call]
                 by_branch.setdefault(b, {})[nm] = v
-        if len({k[0] for k in by_branch}) != 1 or any(set(env) != multi for env in by_branch.values()):
+        # names are grouped by the `if` that defines them (each such name once in either branch); independent `if`s combine
+        ifs = sorted({k[0] for k in by_branch})
+        per_if = []
+        for i_ in ifs:
+            brs = {k[1]: env for k, env in by_branch.items() if k[0] == i_}
+            names_i = set().union(*[set(e_) for e_ in brs.values()])
+            if set(brs) != {"body", "orelse"} or any(set(e_) != names_i for e_ in brs.values()):
+                return [call]
+            per_if.append([brs["body"], brs["orelse"]])
+        import itertools as _it
+        cases = []
+        for combo in _it.product(*per_if):
+            env = {}
+            for e_ in combo:
+                env.update(e_)
+            cases.append(env)
+        if len(cases) > 8:
             return [call]
-        cases = [dict(env) for _, env in sorted(by_branch.items(), key=lambda kv: kv[0][1])]
     for env in cases:
         for nm in wanted - multi:
             if len(defs.get(nm, [])) == 1 and not isinstance(defs[nm][0][1], ast.Name):
@@ -458,10 +478,16 @@ def _virtual_calls(fn: ast.FunctionDef, call: ast.Call) -> List[ast.Call]:
         if not full:
             return [call]
         vc = _c.deepcopy(call)
-        vc.args = [Sub(full).visit(a) if isinstance(a, ast.Name) else a for a in vc.args]
+        def sub_arg(a):
+            if isinstance(a, ast.Name):
+                return Sub(full).visit(a)
+            if isinstance(a, ast.Lambda):
+                shadow = {p_.arg for p_ in a.args.args}
+                a.body = Sub({k_: v_ for k_, v_ in full.items() if k_ not in shadow}).visit(a.body)
+            return a
+        vc.args = [sub_arg(a) for a in vc.args]
         for k in vc.keywords:
-            if isinstance(k.value, ast.Name):
-                k.value = Sub(full).visit(k.value)
+            k.value = sub_arg(k.value)
         ast.copy_location(vc, call)
         ast.fix_missing_locations(vc)
         from ..model import _set_parents
@@ -635,6 +661,21 @@ def r_db_pair(ctx: RuleCtx, col: Collector):
         params = g.pos_params()
         mat = bound.get(params[0])
         kind = _matrix_kind(mat, selfn, aattr) if mat is not None else None
+        if kind is None and isinstance(mat, ast.Attribute) and isinstance(mat.value, ast.Name) and mat.value.id == selfn:
+            # a cached transposed matrix: every assignment of the attribute is None or the conjugate transpose of the stored
+            # matrix, and update() drops it together with the matrix it belongs to
+            vals = []
+            for k_ in m.mro(lda):
+                for defs_ in k_.methods.values():
+                    for g_ in defs_:
+                        sn_ = m.self_name(g_)
+                        for a_ in ast.walk(g_.node):
+                            if isinstance(a_, ast.Assign) and any(norm(t_) == f"{sn_}.{mat.attr}" for t_ in a_.targets):
+                                vals.append((g_, a_.value, sn_))
+            kinds_ = {(_matrix_kind(v_, sn_, aattr) if not (isinstance(v_, ast.Constant) and v_.value is None) else "None") for g_, v_, sn_ in vals}
+            dropped = any(g_.name == "update" and isinstance(v_, ast.Constant) and v_.value is None for g_, v_, sn_ in vals)
+            if vals and kinds_ <= {"H", "None"} and "H" in kinds_ and dropped:
+                kind = "H"
         dbs = tuple(sorted((p, norm(bound[p])) for p in appended if p in bound))
         cb = [a for a in list(n.args) + [k.value for k in n.keywords] if isinstance(a, ast.Lambda)]
         tr = _lambda_trans(cb[0]) if cb else None
